@@ -118,12 +118,57 @@ def i_assert(I, args, ins):
         ob['events'] = [repr(e)[:300] for e in ctx.events[-12:]]
     else:
         ob['verdict'] = 'undecided'
+        if ctx.opts.get('concrete_fallback'):
+            m2 = concrete_search(ctx, c, int(ctx.opts['concrete_fallback']))
+            if m2 is not None:
+                ob['verdict'] = 'violated'
+                ob['found_by'] = 'concrete evaluation of solver models of the path condition (the solver could not decide the query)'
+                ob['witness'] = witness(ctx, m2, ())
+                ob['choices'] = list(ctx.trace_choices)
+                ob['decisions'] = list(ctx.decisions)
+                r = 'sat'
     ctx.obligations.append(ob)
     # continue under the assumption that the assertion held
     ctx.add(c)
     ctx.model = None
     if r != 'unsat' and not ctx.feasible():
         raise PathEnd()
+    return None
+
+
+def concrete_search(ctx, c, tries):
+    """Counterexample search for an obligation the solver cannot decide (floating point): take models of
+    the path condition alone, diversified by random residues of the integer inputs, and evaluate the
+    assertion under each model exactly. Finds violations only; it never discharges anything."""
+    import random
+    rnd = random.Random(int(ctx.opts.get('seed', 0)) + len(ctx.decisions))
+    ints = [t for (n, k, t) in ctx.nondets if k == 'int']
+    # a fresh solver: the path's own solver has internalised the floating-point query that timed out
+    s = z3.Solver()
+    for pc in ctx.pc:
+        s.add(pc)
+    s.set('timeout', 1000)
+    t_end = time.time() + float(ctx.opts.get('concrete_fallback_s', 25))
+    try:
+        for i in range(tries):
+            if time.time() > t_end:
+                break
+            s.push()
+            try:
+                for t in ints:
+                    k = rnd.randrange(1, 20)
+                    lo = rnd.randrange(10 ** k)
+                    s.add(t >= lo, t <= lo + max(1, 10 ** (k - 1) // rnd.choice([1, 10, 1000])))
+                if s.check() != z3.sat:
+                    continue
+                m = s.model()
+                v = m.eval(c, model_completion=True)
+                if z3.is_false(v):
+                    return m
+            finally:
+                s.pop()
+    finally:
+        pass
     return None
 
 
@@ -142,10 +187,50 @@ def dump_query(ctx, extra, label, verdict):
         f.write(s.to_smt2())
 
 
+def refine_bounds(c):
+    """Interval facts from an assumed comparison of a term with a numeral."""
+    if not is_sym(c) or not z3.is_app(c):
+        return
+    neg = False
+    if c.decl().kind() == z3.Z3_OP_NOT:
+        neg = True
+        c = c.arg(0)
+    if c.num_args() != 2:
+        return
+    k = c.decl().kind()
+    if neg:
+        k = {z3.Z3_OP_GE: z3.Z3_OP_LT, z3.Z3_OP_LT: z3.Z3_OP_GE, z3.Z3_OP_LE: z3.Z3_OP_GT, z3.Z3_OP_GT: z3.Z3_OP_LE}.get(k)
+        if k is None:
+            return
+    a, b = c.arg(0), c.arg(1)
+    if z3.is_int_value(a) and not z3.is_int_value(b):
+        a, b = b, a
+        k = {z3.Z3_OP_GE: z3.Z3_OP_LE, z3.Z3_OP_LE: z3.Z3_OP_GE, z3.Z3_OP_GT: z3.Z3_OP_LT, z3.Z3_OP_LT: z3.Z3_OP_GT}.get(k, k)
+    if not z3.is_int_value(b):
+        return
+    cur = core.bounds_of(a)
+    if cur is None:
+        return
+    v = b.as_long()
+    lo, hi = cur
+    if k == z3.Z3_OP_GE:
+        lo = max(lo, v)
+    elif k == z3.Z3_OP_GT:
+        lo = max(lo, v + 1)
+    elif k == z3.Z3_OP_LE:
+        hi = min(hi, v)
+    elif k == z3.Z3_OP_LT:
+        hi = min(hi, v - 1)
+    else:
+        return
+    core.set_bounds(a, lo, hi)
+
+
 def i_assume(I, args, ins):
     ctx = I.ctx
     ctx.assumes.append(ctx.cur_pos)
     ctx.assume(args[0])
+    refine_bounds(args[0])
     return None
 
 
